@@ -115,6 +115,16 @@ def lake_build(targets):
         rc, out, err = run(["lake", "build"] + targets, cwd=LEAN, timeout=3600)
     return rc == 0, out + err
 
+def leanchecker(modules):
+    """thorough tier: re-check the compiled .olean of the property modules with Lean's independent checker"""
+    bad = []
+    for m in modules:
+        with Lock("lake"):
+            rc, out, err = run(["lake", "env", "leanchecker", m], cwd=LEAN, timeout=3600)
+        if rc != 0:
+            bad.append((m, (out + err)[-800:]))
+    return bad
+
 def model_exe():
     return os.path.join(LEAN, ".lake", "build", "bin", "psv_model")
 
